@@ -546,7 +546,6 @@ func checkDebSigning(c *Ctx, r *Report, pa *provAnalysis) {
 			if sc == nil || !c.isModuleFunc(sc) || !hashesOneParam(sc) {
 				return
 			}
-			lines++
 			var name, content ssa.Value
 			for _, a := range call.Call.Args {
 				if a.Type().String() == "string" {
@@ -556,6 +555,45 @@ func checkDebSigning(c *Ctx, r *Report, pa *provAnalysis) {
 					content = a
 				}
 			}
+			// the lines come from a loop over a literal table of {name, body}
+			// rows: one line per row
+			if name != nil && content != nil {
+				if ia, nf, ok1 := loopElemField(name); ok1 {
+					if ib, cf, ok2 := loopElemField(content); ok2 && ia == ib {
+						var arr *ssa.Alloc
+						switch x := ia.X.(type) {
+						case *ssa.Slice:
+							arr, _ = x.X.(*ssa.Alloc)
+						case *ssa.Alloc:
+							arr = x
+						}
+						if arr != nil {
+							if rows := tableRows(arr, ia); len(rows) > 0 {
+								for _, row := range rows {
+									if row[nf] != nil && row[cf] != nil {
+										dpkgLine(c, r, pa, members, &lines, call, row[nf], row[cf])
+									}
+								}
+								return
+							}
+						}
+					}
+				}
+			}
+			dpkgLine(c, r, pa, members, &lines, call, name, content)
+		})
+	}
+	r.Floor("F12-dpkg-sig", lines, 3)
+	dpkgSigRest(c, r, reach)
+}
+
+// dpkgLine checks one manifest line: the body it measures is a stored member's
+// and the name it states is that member's.
+func dpkgLine(c *Ctx, r *Report, pa *provAnalysis, members []arMember, nLines *int, call *ssa.Call, name, content ssa.Value) {
+	*nLines++
+	lines := *nLines
+	{
+		{
 			content = resolveUp(c, pa, content)
 			name = resolveUp(c, pa, name)
 			var member *arMember
@@ -572,10 +610,11 @@ func checkDebSigning(c *Ctx, r *Report, pa *provAnalysis) {
 			same := name == member.name || (constOrEmpty(name) != "" && constOrEmpty(name) == constOrEmpty(member.name))
 			r.Check(same, "F12-dpkg-sig", construct, c.instrPos(call),
 				fmt.Sprintf("the line measures the body stored as member %s but names it %s: the manifest must name the members as stored (e.g. data.tar.xz when xz is used)", describeValue(member.name), describeValue(name)))
-		})
+		}
 	}
-	r.Floor("F12-dpkg-sig", lines, 3)
+}
 
+func dpkgSigRest(c *Ctx, r *Report, reach map[*ssa.Function]bool) {
 	// D7: with an invalid type no signer call is live (debsign path)
 	for _, fn := range sortedFuncs(c, reach) {
 		if !comparesFieldToConst(fn, "Overridables.Deb.Signature.Method") {
@@ -854,7 +893,7 @@ func checkAPKSigning(c *Ctx, r *Report, pa *provAnalysis) {
 				return
 			}
 			p := pa.Of(st.Val)
-			if p.has("const:.SIGN.RSA.%s") && (p.has("Info.Overridables.APK.Signature.KeyName") && p.has("const:.rsa.pub")) {
+			if (p.has("const:.SIGN.RSA.%s") || p.has("const:.SIGN.RSA.")) && (p.has("Info.Overridables.APK.Signature.KeyName") && p.has("const:.rsa.pub")) {
 				okName = true
 				// ... and from nothing that rewrites it: apk looks the public key
 				// up under exactly this name
